@@ -573,6 +573,6 @@ MANIFEST = {
             "of ImmutableBaseModel: canonical values, rejection of inverted bounds / wrong shapes, every stored array read-only, object immutable on exit, fix_perturbations and "
             "apply_transformation stable. pydantic's orchestration and the 'every reachable attribute' / JSON round-trip clauses are covered by a bounded native attack on really "
             "validated generated configurations, which is why the level is 'other'.",
-    "note": "pydantic validator ordering and model_copy/model_construct/frozen semantics are assumed library contracts; ImmutableBaseModel by typestate model; generated configurations are a bounded sample; array lengths <= 3",
+    "note": "field converters, frame clauses of fix_perturbations / apply_transformation (the frozen object is not changed) and the order of EnOptConfig's model validators are obligations; pydantic validator ordering and model_copy/model_construct/frozen semantics are assumed library contracts; ImmutableBaseModel by typestate model; generated configurations are a bounded sample; array lengths <= 3",
     "technique": "contract-based deductive verification of the validator bodies (symbolic execution + z3/cvc5, typestate for immutability) plus bounded run-time contract checking through the real pydantic models",
 }
